@@ -20,7 +20,7 @@ def c05(tier):
         # capture = copy of stack[1..sp] and the registers, throw = their restoration with the value in acc
         # (spec/Machine.tla): every instruction of continuation sessions against the model's registers
         import mach
-        vcov.update(mach.run(verdict, wd, [('cont', 30 if q else 1500)], vlib.seed()))
+        vcov.update(mach.run(verdict, wd, [('cont', 30 if q else 500)], vlib.seed()))
 
     def relevant(mm, sess, runs):
         return mm['kind'] in ('conformance', 'corpus', 'abort')
